@@ -670,6 +670,14 @@ class Producer(object):
                 failure = result
                 result = failure.value.args[0]
                 failed_payloads = failure.value.args[1]
+                if self.req_acks == PRODUCER_ACK_NOT_REQUIRED:
+                    # No responses are expected, so there is nothing in
+                    # 'result' to tell us about the payloads which did not
+                    # fail: they were sent, let their callers know.
+                    failed_tps = {TopicAndPartition(p.topic, p.partition) for p, f in failed_payloads}
+                    for t_and_p, d_list in deferredsByTopicPart.items():
+                        if t_and_p not in failed_tps:
+                            _deliver_result(d_list, None)
 
         # Do we have results? Iterate over them and if the response indicates
         # success, then callback the associated deferred. If the response
